@@ -6,6 +6,7 @@ Links3 == [c \in Chains |-> Chains \ {c}]                      \* T3: full mesh 
 RuleSetsSmall == { {}, {<<"A", "*", "mock">>} }
 NoPairs == {}
 ExpireCA == {<<"C", "A">>}
+ExpireCB == {<<"C", "B">>}
 RuleSetsGen == { {}, {<<"A", "C", "mock">>}, {<<"*", "*", "*">>}, {<<"A", "*", "mock">>, <<"C", "A", "*">>},
                  {<<"*", "C", "nft">>}, {<<"C", "A", "mock">>} }
 =============================================================================
